@@ -279,8 +279,10 @@ class Ctx:
                         okax = False
                         self.log("unexpected axiom:", item)
         self.obligation("axioms limited to named stdlib axioms", okax)
-        self.cov["assumptions_reported"] = sorted(set(blocks))
-        self.cov["theorems_in_property_file"] = n
+        # a check may run several property files: accumulate
+        self.cov["assumptions_reported"] = sorted(set(self.cov.get("assumptions_reported", [])) | set(blocks))
+        self.cov["theorems_in_property_file"] = self.cov.get("theorems_in_property_file", 0) + n
+        self.cov.setdefault("property_files", []).append(propfile)
         return ok and ok_gate and okax
 
     def coqc_text(self, name: str, text: str, where: Path = None, timeout=600) -> tuple[bool, str]:
